@@ -1,9 +1,11 @@
 CONSTANTS
   Dev = {}
+  MaxRuns = 1
+  EntQKinds = {"positive", "nxdomain", "ds"}
   Budget = 2
   Shapes = {"secure3", "insecure3", "secure4", "insecure4", "entapex_s", "entapex_i", "entname_s", "entname_i"}
   Denials = {"nsec", "nsec3", "optout"}
-  QKinds = {"positive", "wildcard", "nodata", "nxdomain", "cname1", "cname2", "ds", "dname", "dnamex"}
+  QKinds = {"positive", "wildcard", "nodata", "nxdomain", "cname1", "cname2", "ds", "dname", "dnamex", "nxdeep"}
   AdvActs = {"ForgeSigned", "CorruptKey", "CorruptDs", "DropRrset"}
 SPECIFICATION Spec
 VIEW View
